@@ -7,6 +7,7 @@ import Vore.Driver.OpsC20
 import Vore.Driver.OpsLex
 import Vore.Driver.OpsC17
 import Vore.Driver.OpsC18
+import Vore.Driver.OpsC11
 /-!
 # Vore.Driver.Ops — registry of the per-property driver operations
 
@@ -16,6 +17,6 @@ Each property that needs its own line-protocol operations defines, in
 -/
 namespace Vore.Driver
 
-def extraOps : List (String → List String → Option String) := [handleParse, handleC04, handleC05, handleC07, handleC20, handleLex, handleC17, handleC18]
+def extraOps : List (String → List String → Option String) := [handleParse, handleC04, handleC05, handleC07, handleC20, handleLex, handleC17, handleC18, handleC11]
 
 end Vore.Driver
